@@ -5,6 +5,7 @@ import VelaVerif.Lemmas.AllocHc
 import VelaVerif.Lemmas.AllocHcErr
 import VelaVerif.Lemmas.AllocVerify
 import VelaVerif.Lemmas.AllocHcTotal
+import VelaVerif.Lemmas.LiveRangeAlign
 /-!
 # C05 — tensor allocators never overlap live buffers and report their true footprint
 
@@ -434,5 +435,44 @@ example : ∀ lr ∈ ([⟨1, 2, 32, 16, 0, 0⟩, ⟨2, 2, 48, 16, 1, 1⟩, ⟨0,
 
 example : hcTotal [⟨1, 2, 32, 16, 0, 0⟩, ⟨2, 2, 48, 16, 1, 1⟩, ⟨0, 1, 16, 16, 2, 2⟩, ⟨0, 0, 48, 16, 3, 3⟩]
     [48, 0, 0, 16] = 80 := by decide
+
+/-! ## Alignment requests reaching the allocators (`LiveRange.set_alignment`, `get_or_create_range`)
+
+The allocators honour the alignment stored in the live range; these theorems say that the stored
+alignment honours *every* request made for that range (first request creates it, later ones go
+through `set_alignment`). -/
+
+open VelaVerif.LiveRangeAlign in
+/-- the stored alignment is at least every requested alignment -/
+theorem alignment_ge_every_request (first : Nat) (rest : List Nat) :
+    first ≤ finalAlignment first rest ∧ ∀ r ∈ rest, r ≤ finalAlignment first rest :=
+  ⟨foldl_ge_acc rest first, fun r h => foldl_ge_mem rest first r h⟩
+
+open VelaVerif.LiveRangeAlign in
+/-- for power-of-two requests (what `--cpu-tensor-alignment` and the NPU quantum are) the stored
+    alignment is a multiple of every request, so an address aligned to it honours all of them -/
+theorem alignment_requests_honoured (first : Nat) (rest : List Nat)
+    (hp : ∀ r ∈ first :: rest, ∃ i, r = 2 ^ i) :
+    ∀ r ∈ first :: rest, r ∣ finalAlignment first rest := by
+  intro r hr
+  have hfin : finalAlignment first rest ∈ first :: rest := by
+    rcases foldl_mem rest first with h | h
+    · unfold finalAlignment; rw [h]; exact List.mem_cons_self ..
+    · exact List.mem_cons_of_mem _ h
+  obtain ⟨j, hj⟩ := hp _ hfin
+  obtain ⟨i, hi⟩ := hp r hr
+  have hle : r ≤ finalAlignment first rest := by
+    rcases List.mem_cons.mp hr with rfl | hm
+    · exact (alignment_ge_every_request _ rest).1
+    · exact (alignment_ge_every_request first rest).2 r hm
+  rw [hi, hj] at hle ⊢
+  have : i ≤ j := by
+    rcases Nat.lt_or_ge j i with hlt | hge
+    · exact absurd hle (Nat.not_le.mpr (Nat.pow_lt_pow_right (by decide) hlt))
+    · exact hge
+  exact Nat.pow_dvd_pow 2 this
+
+example : VelaVerif.LiveRangeAlign.finalAlignment 16 [128, 16, 64] = 128 := by decide
+example : VelaVerif.LiveRangeAlign.honoursAll 128 [16, 128, 16, 64] = true := by decide
 
 end VelaVerif.Props.C05
